@@ -3,6 +3,7 @@ package streamsim
 import (
 	"fmt"
 	"math"
+	"strings"
 
 	"github.com/apache/arrow-go/v18/arrow/memory"
 
@@ -38,13 +39,23 @@ func defaultOptions() OptionSet {
 
 // drawOptions draws a point of the swarm. cheap biases toward small
 // dictionary limits so that transitions happen within small histories.
-func drawOptions(t *core.Tape, cheap bool) OptionSet {
+func drawOptions(t *core.Tape, cheap bool) OptionSet { return drawOptionsX(t, cheap, false) }
+
+// drawOptionsX: custom also allows limits that are not of the form 2^k-1, set
+// through a hand-written config.Option (C16 only: "arbitrary options"; the
+// limit properties are stated for the With*LimitDictIndex options, and the
+// code enforces a custom limit only up to the capacity of its index width).
+func drawOptionsX(t *core.Tape, cheap, custom bool) OptionSet {
 	o := defaultOptions()
 	var c int
+	cw := 0
+	if custom {
+		cw = 2
+	}
 	if cheap {
-		c = t.Weighted(core.Cfg, 2, 2, 6, 2, 1, 1)
+		c = t.Weighted(core.Cfg, 2, 2, 6, 2, 1, 1, cw)
 	} else {
-		c = t.Weighted(core.Cfg, 3, 2, 3, 3, 2, 1)
+		c = t.Weighted(core.Cfg, 3, 2, 3, 3, 2, 1, cw)
 	}
 	switch c {
 	case 1:
@@ -57,6 +68,11 @@ func drawOptions(t *core.Tape, cheap bool) OptionSet {
 		o.Dict, o.Limit = "uint32", math.MaxUint32
 	case 5:
 		o.Dict, o.Limit = "uint64", math.MaxUint64
+	case 6:
+		// config.Option is a public func(*Config) type and LimitIndexSize a public
+		// field: a caller may set a limit that is not of the form 2^k-1
+		o.Limit = []uint64{300, 1000}[t.Draw(core.Cfg, 2)]
+		o.Dict = fmt.Sprintf("custom%d", o.Limit)
 	}
 	switch t.Weighted(core.Cfg, 3, 2, 1, 2, 1, 2) {
 	case 1:
@@ -104,6 +120,11 @@ func (o OptionSet) build(alloc memory.Allocator, obs observer.ProducerObserver) 
 		opts = append(opts, config.WithUint32LimitDictIndex())
 	case "uint64":
 		opts = append(opts, config.WithUint64LimitDictIndex())
+	default:
+		if strings.HasPrefix(o.Dict, "custom") {
+			limit := o.Limit
+			opts = append(opts, func(c *config.Config) { c.LimitIndexSize = limit })
+		}
 	}
 	switch o.Init {
 	case "uint8":
